@@ -1354,6 +1354,14 @@ func stepLeader(r *raft, m *pb.Message) error {
 	case pb.MsgReadIndex:
 		// only one voting member (the leader) in the cluster
 		if r.trk.IsSingleton() {
+			// Even a sole voter must have committed an entry in its own term
+			// before its commit index is known to cover everything committed in
+			// earlier terms (e.g. after a restart that lost an unsynced commit
+			// index). Until then the request is postponed like on any leader.
+			if !r.committedEntryInCurrentTerm() {
+				r.pendingReadIndexMessages = append(r.pendingReadIndexMessages, m)
+				return nil
+			}
 			if resp := r.responseToReadIndexReq(m, r.raftLog.committed); resp.GetTo() != None {
 				r.send(resp)
 			}
@@ -2144,6 +2152,15 @@ func releasePendingReadIndexMessages(r *raft) {
 }
 
 func sendMsgReadIndexResponse(r *raft, m *pb.Message) {
+	// A sole voter has nobody to confirm its leadership with: answer directly
+	// (this is reached for requests that were postponed until the first commit
+	// in the current term).
+	if r.trk.IsSingleton() {
+		if resp := r.responseToReadIndexReq(m, r.raftLog.committed); resp.GetTo() != None {
+			r.send(resp)
+		}
+		return
+	}
 	// thinking: use an internally defined context instead of the user given context.
 	// We can express this in terms of the term and index instead of a user-supplied value.
 	// This would allow multiple reads to piggyback on the same message.
